@@ -14,6 +14,7 @@ def showEv : Ev → String
 inductive DOp
   | r (op : OpR)
   | appear (ms : List Nat)
+  | initializing (ms : List Nat)
 
 def parseOp (j : Json) : Except String DOp := do
   let a ← jArr j
@@ -23,11 +24,13 @@ def parseOp (j : Json) : Except String DOp := do
   | "extract" => pure (.r (.extract []))
   | "extractR" => pure (.r (.extract (← (← jArr a[1]!).toList.mapM jNat)))     -- these modules vanish during the scan
   | "extractA" => pure (.appear (← (← jArr a[1]!).toList.mapM jNat))           -- these modules appear during the scan
+  | "extractI" => pure (.initializing (← (← jArr a[1]!).toList.mapM jNat))     -- these modules are still being imported
   | t => throw s!"bad op {t}"
 
 def dstep (st : Static) (g : GState) : DOp → GState
   | .r op => stepR st g op
   | .appear ms => addGlueA st g ms
+  | .initializing ms => addGlueI st g ms
 
 /-- Step thread `t` until it has popped for module `m` (its glue call is pending). -/
 def untilPopped (st : Static) (c : SS.GlueConc.CState) (t m : Nat) : Nat → SS.GlueConc.CState
